@@ -1,6 +1,8 @@
 (* C02 — layout, comments and keyword case never change tokens; literals are exact. Property theorems only (proofs: Scan.v, FrontFacts.v). *)
 Require Import ZArith NArith Bool List Arith. Import ListNotations.
-Require Import F64 Dec Types Scan Pratt GenUnicode Front ScanTotal FrontFacts GenTokens GenDispatch.
+From Flocq Require Import Core BinarySingleNaN.
+Require Import Reals.
+Require Import F64 Dec DecFacts Types Scan Pratt GenUnicode Front ScanTotal FrontFacts GenTokens GenDispatch.
 Open Scope N_scope.
 
 (* the scanner inverts printing: for every list of well-formed spelled tokens, every well-formed layout before, between and after
@@ -25,6 +27,21 @@ Proof. exact string_exact. Qed.
 Theorem C02_ident_exact : forall s, u_wf (SWord s) -> kw_of s = None -> scan_raw s = Scan.Ok [Scan.TId s].
 Proof. exact ident_exact. Qed.
 Print Assumptions C02_string_exact.
+
+(* a decimal number literal denotes the nearest double: digits.digits (also .digits) is parsed to the value literal_value, which is the
+   correct rounding (to nearest, ties to even) of the exact decimal D / 10^k, or +inf when that overflows.
+   C02_number_nearest_partial: the integer spellings (digits, digits.) go through of_int = binary_normalize of the exact integer, whose
+   correct rounding is Flocq's binary_normalize_correct and is not restated here; literals with more than 400 excess fractional zeros are flushed to 0 *)
+Theorem C02_number_parse : forall ip fp, forallb is_digit ip = true -> forallb is_digit fp = true -> (ip <> [] \/ fp <> []) ->
+  parse_f64 (ip ++ 46%N :: fp) = Some (literal_value ip fp) /\ (fp = [] -> ip <> [] -> parse_f64 ip = Some (literal_value ip [])).
+Proof. intros ip fp Hi Hf Hne. apply parse_decimal_literal; auto. destruct ip; exact I. Qed.
+Theorem C02_number_nearest_partial : forall ip fp p, digits_val 0 (ip ++ fp) = Zpos p -> fp <> [] -> (Z.of_nat (length fp) <= Z.of_nat (length (ip ++ fp)) + 400)%Z ->
+  let x := (IZR (Zpos p) / IZR (10 ^ Z.of_nat (length fp)))%R in
+  if Rlt_bool (Rabs (round radix2 (SpecFloat.fexp F64.prec F64.emax) ZnearestE x)) (bpow radix2 F64.emax)
+  then B2R (literal_value ip fp) = round radix2 (SpecFloat.fexp F64.prec F64.emax) ZnearestE x /\ is_finite (literal_value ip fp) = true
+  else literal_value ip fp = B754_infinity false.
+Proof. exact literal_nearest. Qed.
+Print Assumptions C02_number_nearest_partial.
 
 (* the scanner tables of the model are the ones the code has today (regenerated from scanner.rs on every run) *)
 Theorem C02_single_char_tokens_are_the_codes : forallb (fun ct => same_target (scans_to [fst ct]) (inl (snd ct))) rsingle_char_tokens = true.
